@@ -117,6 +117,14 @@ package loader
 // C15: the files are folded in the order given, and the base of a file that extends another one is placed
 // immediately before that file - i.e. at the end of what has been loaded so far, not at the file's position in the
 // command line (the two differ as soon as an earlier file had a base of its own).
+// C07: the whole merged configuration is validated (cycles, undefined dependencies, ...) before the admission
+// policy removes the processes of namespaces that were not selected: a defect confined to a namespace that is
+// filtered out is still rejected.
+//@ ghost validated(*types.Project) bool
+//@ func validate
+//@   sets validated(p) := true
+//@ func admitProcesses
+//@   requires validated-before-admission: validated(p)
 //@ func Load
 //@   requires opts != nil && len(opts.projects) == 0
 //@   loop 1 invariant opts != nil && idx >= -1 && len(opts.FileNames) == len(opts.projects) + len(fileNames) - (idx + 1) && len(opts.projects) >= idx + 1 && len(fileNames) >= 1 && idx < len(fileNames)
